@@ -116,13 +116,17 @@ fn exec_inner(case: &J, acc: &mut Acc) -> Result<(), Fail> {
                 acc.nontrivial(fnv(src));
             }
             // deterministic
-            match compile_once() {
-                Ok(Ok(j2)) if j2 == json_text => {}
-                Ok(Ok(_)) => {
-                    return Err(Fail::violation("compiler-nondeterministic", "compiling the same text twice gave different output".to_string(), case.clone()));
-                }
-                _ => {
-                    return Err(Fail::violation("compiler-nondeterministic", "the second compilation of the same text failed".to_string(), case.clone()));
+            // (several repetitions: a dependence on hash-map iteration order shows up only in
+            // some of them, and the shrunk case must fail again when it is re-executed)
+            for _ in 0..5 {
+                match compile_once() {
+                    Ok(Ok(j2)) if j2 == json_text => {}
+                    Ok(Ok(_)) => {
+                        return Err(Fail::violation("compiler-nondeterministic", "compiling the same text again gave different output".to_string(), case.clone()));
+                    }
+                    _ => {
+                        return Err(Fail::violation("compiler-nondeterministic", "a further compilation of the same text failed".to_string(), case.clone()));
+                    }
                 }
             }
             let doc: J = match serde_json::from_str(&json_text) {
